@@ -51,6 +51,33 @@ Theorem C09_sentinel_iff :
 Proof. exact sentinel_iff. Qed.
 Print Assumptions C09_sentinel_iff.
 
+(* the state preconditions of PauseJob / ResumeJob are decided by the Suspended flag of the registered entry alone, whatever
+   fire time it carries: PauseJob fails (and then with ErrJobIsSuspended) exactly when the flag is set, ResumeJob answers
+   ErrJobIsActive exactly when it is not -- also for an active entry whose trigger returned math.MaxInt64, the value
+   suspended entries are parked at *)
+Theorem C09_state_errors_go_by_flag :
+  forall (O : queue_ops), queue_contract O ->
+  forall (tstate : Type) (nft : tid -> tstate -> Z -> tstate * (Z + terr)) now k q ts x,
+    q_wf O q -> q_get O k q = Some x ->
+    (forall q' ts' evs res, api O tstate nft now (OpPause (Some k)) q ts = (q', ts', evs, res) ->
+       forall e, res = RErr e <-> (e_susp x = true /\ e = ESent SJobIsSuspended)) /\
+    (forall q' ts' evs res, api O tstate nft now (OpResume (Some k)) q ts = (q', ts', evs, res) ->
+       (e_susp x = false -> res = RErr (ESent SJobIsActive)) /\
+       (res = RErr (ESent SJobIsActive) -> e_susp x = false)).
+Proof. exact state_errors_by_flag. Qed.
+Print Assumptions C09_state_errors_go_by_flag.
+
+(* non-vacuity of the above at the boundary: a job whose trigger returns math.MaxInt64 is active (ResumeJob: ErrJobIsActive),
+   can be paused (then PauseJob: ErrJobIsSuspended) and resumed; both executable queues agree *)
+Theorem C09_example_never_trigger :
+  fst (fst (api_run list_queue xstate nft_exec ops_c09_never [] ts_never)) =
+  [ ROk; RJob (mkEntry ka go_MaxInt64 false false 4%nat); RErr (ESent SJobIsActive); ROk;
+    RErr (ESent SJobIsSuspended); ROk; RJob (mkEntry ka go_MaxInt64 false false 4%nat); RErr (ESent SJobIsActive) ] /\
+  fst (fst (api_run sorted_queue xstate nft_exec ops_c09_never [] ts_never)) =
+  fst (fst (api_run list_queue xstate nft_exec ops_c09_never [] ts_never)).
+Proof. exact ex_c09_never. Qed.
+Print Assumptions C09_example_never_trigger.
+
 (* keys are unique in every state reachable by any interleaving of API calls, split ScheduleJob calls,
    fetches of any number of schedulers, executions, clock advances and foreign queue changes *)
 Theorem C09_keys_nodup :
